@@ -1,5 +1,6 @@
 import Tftp.Driver.Util
 import Tftp.Driver.Worker
+import Tftp.Driver.Server
 open Tftp Tftp.Driver
 
 def dispatch (line : String) : String :=
@@ -11,6 +12,8 @@ def dispatch (line : String) : String :=
     else if cmd = "win" then winLine toks
     else if cmd = "snd" then sndLine toks
     else if cmd = "rcv" then rcvLine toks
+    else if cmd = "req" then reqLine toks
+    else if cmd = "storm" then stormLine toks
     else "bad-op"
 
 partial def loop (hin : IO.FS.Stream) (hout : IO.FS.Stream) : IO Unit := do
